@@ -99,6 +99,31 @@ def region(world, r):
     kind, wells, shape = selectors.resolve(list(o.row_names), list(o.column_names), sel)
     if kind != selectors.OK:
         return None, None
+    if not isinstance(r, str) and len(r) > 2:
+        # sub-slice of a slice: undocumented; the reference reading is 0-based numpy indexing of the parent's grid of wells
+        # (the unchanged tree agrees with it on every in-range index; out-of-range sub-indices are not judged)
+        import numpy
+        grid = numpy.empty(shape, dtype=object)
+        flat = grid.reshape(-1)
+        for i, w in enumerate(wells):
+            flat[i] = w
+        for sub in r[2:]:
+            if grid.ndim != 2:
+                return None, None
+            try:
+                grid = grid[selectors.ev(sub)]
+            except IndexError:
+                return None, None
+            if not isinstance(grid, numpy.ndarray):
+                one = numpy.empty((1, 1), dtype=object)
+                one[0, 0] = grid
+                grid = one
+            elif grid.ndim == 1:
+                return None, None          # an int on one axis only: shape conventions differ, not judged
+        wells = [w for w in grid.reshape(-1)]
+        shape = grid.shape
+        if not wells:
+            return None, None
     return [(refname(r), w) for w in wells], shape
 
 
@@ -131,8 +156,23 @@ def apply(pp, subs, world, act):
             r = resolve(world, act['obj']).fill_to(subs[act['solvent']], act['q'])
             new = {refname(act['obj']): r}
         elif op == 'dilute':
-            r = world[act['obj']].dilute(subs[act['solute']], act['conc'], subs[act['solvent']])
-            new = {act['obj']: r}
+            r = world[act['obj']].dilute(subs[act['solute']], act['conc'], subs[act['solvent']], act.get('new_name'))
+            new = {act['obj']: r}          # a renamed result stays bound to the name it was declared under
+        elif op == 'observe':   # every read-only observer; returns nothing new
+            o = resolve(world, act['obj'])
+            base = world[refname(act['obj'])]
+            if is_plate(base):
+                o.get_substances(), o.get_volumes(), o.get_volumes(subs['water'], 'mL'), o.get_moles(subs['nacl'])
+                if is_plate(o):
+                    o.get_volume('uL')
+            else:
+                o.get_substances(), o.get_volume('mL'), o.has_liquid()
+                for sub in subs.values():
+                    try:
+                        o.get_concentration(sub, 'M' if not sub.is_enzyme() else 'U/mL')
+                    except ZeroDivisionError:
+                        pass
+            r, new = None, {}
         elif op == 'add':     # constructor-based addition: a new container with the old contents plus one substance
             old = world[act['obj']]
             r = old._add(subs[act['what']], act['q'])
@@ -215,8 +255,9 @@ def exact_obj(o):
     if is_slice(o):
         return ('S', id(o.plate), exact_obj(o.plate), repr(o.slices))
     if hasattr(o, 'contents'):
+        # get_substances() is a cached answer: a poisoned cache is an observable change of the object
         return ('C', o.name, tuple(sorted((s.name, repr(a)) for s, a in o.contents.items())), repr(o.volume),
-                repr(o.max_volume), getattr(o, 'instructions', None))
+                repr(o.max_volume), getattr(o, 'instructions', None), tuple(sorted(s.name for s in o.get_substances())))
     if hasattr(o, 'mol_weight'):
         return ('X', o.name, o._type, o.mol_weight, o.density, o.concentration, o.specific_activity)
     return ('?', repr(o))
@@ -238,9 +279,11 @@ def act_str(a):
     if op == 'fill_to':
         return f"{r(a['obj'])}.fill_to({a['solvent']}, {a['q']!r})"
     if op == 'dilute':
-        return f"{a['obj']}.dilute({a['solute']}, {a['conc']!r}, {a['solvent']})"
+        return f"{a['obj']}.dilute({a['solute']}, {a['conc']!r}, {a['solvent']}" + (f", name={a['new_name']!r})" if a.get('new_name') else ")")
     if op == 'add':
         return f"{a['obj']}+({a['what']}, {a['q']!r})"
+    if op == 'observe':
+        return f"observe({r(a['obj'])})"
     if op == 'create_solution':
         return f"create_solution({a['solute']}, {a['solvent']}, {a['name']!r}, {a['kw']})"
     if op == 'create_solution_from':
@@ -252,8 +295,9 @@ def act_str(a):
 class Explorer:
     """Level-synchronous BFS. A state is stored as the history that reaches it; workers rebuild it by replay."""
 
-    def __init__(self, pp, vidx, spec, seed_history, alphabet, monitors, label='', track_path=False):
+    def __init__(self, pp, vidx, spec, seed_history, alphabet, monitors, label='', track_path=False, via_recipe=False):
         self.track_path = track_path
+        self.via_recipe = via_recipe          # perform every action as a single recipe step (declare, add, bake)
         self.pp, self.vidx, self.spec = pp, vidx, spec
         self.seed_history = list(seed_history)
         self.alphabet = list(alphabet)
@@ -262,7 +306,7 @@ class Explorer:
 
     def case(self, hist_idx, act):
         return {'vidx': self.vidx, 'spec': self.spec, 'seed_history': self.seed_history,
-                'history': [self.alphabet[i] for i in hist_idx], 'act': act, 'sweep': self.label}
+                'history': [self.alphabet[i] for i in hist_idx], 'act': act, 'sweep': self.label, 'via_recipe': self.via_recipe}
 
     def _expand(self, item):
         """Worker: rebuild the state reached by hist_idx, apply the actions lo..hi, run monitors."""
@@ -278,7 +322,7 @@ class Explorer:
         for ai in range(lo, hi):
             act = self.alphabet[ai]
             env.clear_caches(pp)
-            obs = apply(pp, subs, world, act)
+            obs = (apply_via_recipe if self.via_recipe else apply)(pp, subs, world, act)
             post = commit(world, obs) if obs['ok'] else world
             ctx = {'pp': pp, 'subs': subs, 'k': k, 'case': self.case(hist_idx, act), 'pre_exact': pre_exact,
                    'path_objects': path_objects or ()}
@@ -379,7 +423,7 @@ def replay_case(pp, case, monitors):
     env.clear_caches(pp)
     act = case['act']
     pre_exact = exact_world(world)
-    obs = apply(pp, subs, world, act)
+    obs = (apply_via_recipe if case.get('via_recipe') else apply)(pp, subs, world, act)
     post = commit(world, obs) if obs['ok'] else world
     ctx = {'pp': pp, 'subs': subs, 'k': len(history), 'case': case, 'pre_exact': pre_exact, 'path_objects': path_objects}
     vs = []
@@ -416,7 +460,7 @@ def apply_via_recipe(pp, subs, world, act):
         elif op == 'fill_to':
             r.fill_to(rref(act['obj']), subs[act['solvent']], act['q'])
         elif op == 'dilute':
-            r.dilute(rref(act['obj']), subs[act['solute']], act['conc'], subs[act['solvent']])
+            r.dilute(rref(act['obj']), subs[act['solute']], act['conc'], subs[act['solvent']], act.get('new_name'))
         elif op == 'create_solution':
             solvent = rref(act['solvent']) if act['solvent'] in world else subs[act['solvent']]
             solute = [subs[x] for x in act['solute']] if isinstance(act['solute'], list) else subs[act['solute']]
